@@ -297,7 +297,7 @@ func c12Run(c *core.Ctx) {
 	}
 	var a []cueShape
 	for s := int64(0); s <= grid; s++ {
-		a = append(a, cueShape{s, s + 1, "x"})
+		a = append(a, cueShape{s, s + 1, "x"}, cueShape{s, s + 3, "x"}) // equal starts with different ends: the end is no tie-breaker
 	}
 	enumLists(a, maxN, false, false, func(l0 lm.List) bool {
 		if !c.Mine() {
@@ -340,7 +340,7 @@ func c12Run(c *core.Ctx) {
 			for i := 0; i < bg.n; i++ {
 				s := int64(x % bg.k)
 				x /= bg.k
-				l[i] = lm.Cue{S: s * ms, E: (s + 1) * ms, T: "x", U: i}
+				l[i] = lm.Cue{S: s * ms, E: (s + int64(bg.n-i)) * ms, T: "x", U: i} // ends decrease along the list
 			}
 			exp, key, msg := checkOrder(l)
 			c.Transitions++
@@ -363,7 +363,7 @@ func c12Run(c *core.Ctx) {
 	// Merge (i): all pairs of lists, fixed definitions, three receiver kinds
 	mN := 3
 	var lists []lm.List
-	enumLists(a[:3], mN, false, false, func(l lm.List) bool { lists = append(lists, l.Scale(ms)); return true })
+	enumLists([]cueShape{a[0], a[2], a[4]}, mN, false, false, func(l lm.List) bool { lists = append(lists, l.Scale(ms)); return true })
 	for _, A := range lists {
 		for _, B := range lists {
 			for recv := 0; recv < 3; recv++ {
